@@ -936,6 +936,10 @@ class VM:
                     bytecode=compiled_func.bytecode,
                 )
                 js_func._compiled = compiled_func
+                if compiled_func.is_arrow:
+                    # `this` inside an arrow function is the `this` of the code
+                    # that creates it, however the arrow is called later
+                    js_func._lexical_this = frame.this_value
 
                 # Create prototype object for the function
                 # In JavaScript, every function has a prototype property
@@ -2761,6 +2765,9 @@ class VM:
             args = list(func._bound_args) + list(args)
         if hasattr(func, "_original_func"):
             func = func._original_func
+        if hasattr(func, "_lexical_this"):
+            # An arrow function: call form, call/apply and bind do not matter
+            this_val = func._lexical_this
 
         compiled = getattr(func, "_compiled", None)
         if compiled is None:
